@@ -18,10 +18,15 @@
 (*             order of decreasing count                                   *)
 (*  "legend"   plotting.HandlerTupleOffset: the i-th of n handles is       *)
 (*             shifted by (extent / n) * (i - (n - 1) / 2)                  *)
+(*  "split"    plotting.clustermap_split / ClusterGridSplit: after the     *)
+(*             rows and columns have been put in dendrogram order, the     *)
+(*             cells below the diagonal come from the lower table, the     *)
+(*             cells above it from the upper table and the diagonal holds  *)
+(*             the SUM of both (np.tril + np.triu as written in the code)  *)
 (***************************************************************************)
 EXTENDS Integers, Sequences, SequencesExt, FiniteSets, FiniteSetsExt, TLC, Rational
 
-CONSTANTS Kinds, MaxAxes, MaxLabels, MaxChain, MaxGenes, MaxCount, MaxHandles
+CONSTANTS Kinds, MaxAxes, MaxLabels, MaxChain, MaxGenes, MaxCount, MaxHandles, MaxSplit
 
 VARIABLES kind, inp, i, out, step
 vars == <<kind, inp, i, out, step>>
@@ -29,14 +34,23 @@ vars == <<kind, inp, i, out, step>>
 Cols == {"CDR3A", "CDR3B", "TRAV", "clone"}
 TcrCols == {"TRAV", "CDR3A", "TRAJ", "TRBV", "CDR3B", "TRBJ"}
 
+Perms(n) == { p \in [1..n -> 1..n] : \A a, b \in 1..n : a # b => p[a] # p[b] }
+
 Init == /\ kind \in Kinds
         /\ inp \in (CASE kind = "label" -> { [axes |-> n, labels |-> l] : n \in 0..MaxAxes, l \in UNION { [1..k -> 1..3] : k \in 0..MaxLabels } }
                       [] kind = "tuple" -> { [cls |-> c, a |-> a, b |-> b] : c \in {"tuple2", "tuple3", "list", "table"}, a \in 0..MaxChain, b \in 0..MaxChain }
                       [] kind = "numpy" -> { [cls |-> c] : c \in {"series", "ndarray", "list", "tuple"} }
                       [] kind = "metric" -> { [cls |-> c, cols |-> s] : c \in {"table", "list"}, s \in SUBSET Cols }
                       [] kind = "glyphs" -> { [counts |-> c] : c \in UNION { [1..k -> 1..MaxCount] : k \in 1..MaxGenes } }
-                      [] kind = "legend" -> { [n |-> n, horizontal |-> h] : n \in 1..MaxHandles, h \in BOOLEAN })
+                      [] kind = "legend" -> { [n |-> n, horizontal |-> h] : n \in 1..MaxHandles, h \in BOOLEAN }
+                      \* the library uses one linkage for rows and columns (a symmetric distance table), so the two orders are the same
+                      \* permutation; the tables hold coordinate codes (10 r + c, resp. 100 + 10 r + c): every misplaced cell is visible.
+                      \* (Independent row / column orders make seaborn's mask validation raise - observed, see DESIGN.md 9.2.)
+                      [] kind = "split" -> UNION { { [n |-> n, rows |-> y, cols |-> y] : y \in Perms(n) } : n \in 2..MaxSplit })
         /\ i = 1 /\ out = <<>> /\ step = "run"
+
+Lower(r, c) == 10 * r + c
+Upper(r, c) == 100 + 10 * r + c
 
 \* ---- label_axes: zip(axes, cycle(labels))
 Annotate == /\ kind = "label" /\ step = "run"
@@ -60,6 +74,8 @@ Evaluate ==
                                        standard |-> inp.cls = "table" /\ (inp.cols \cap TcrCols) # {}]
                 [] kind = "glyphs" -> [stack |-> [k \in 1..Len(inp.counts) |-> <<Cum(Sorted(inp.counts), k - 1), Cum(Sorted(inp.counts), k)>>]]
                 [] kind = "legend" -> [shift |-> [k \in 1..inp.n |-> RMul(RFrac(1, inp.n), RSub(R(k - 1), RFrac(inp.n - 1, 2)))]]      \* in units of the extent
+                [] kind = "split" -> [cells |-> [r \in 1..inp.n |-> [c \in 1..inp.n |->
+                                          (IF r >= c THEN Lower(inp.rows[r], inp.cols[c]) ELSE 0) + (IF r <= c THEN Upper(inp.rows[r], inp.cols[c]) ELSE 0)]]]
     /\ step' = "done"
     /\ UNCHANGED <<kind, inp, i>>
 
@@ -80,6 +96,11 @@ GlyphsPartition == (Done /\ kind = "glyphs") =>
 LegendCentred == (Done /\ kind = "legend") =>
     /\ RSum(out.shift) = <<0, 1>>                                              \* shifts are symmetric about the anchor
     /\ \A k \in 1..(inp.n - 1) : RSub(out.shift[k + 1], out.shift[k]) = RFrac(1, inp.n)
+SplitTriangles == (Done /\ kind = "split") =>
+    \A r, c \in 1..inp.n :
+        /\ (r > c => out.cells[r][c] = Lower(inp.rows[r], inp.cols[c]))
+        /\ (r < c => out.cells[r][c] = Upper(inp.rows[r], inp.cols[c]))
+        /\ (r = c => out.cells[r][c] = Lower(inp.rows[r], inp.cols[c]) + Upper(inp.rows[r], inp.cols[c]))
 MetricTable == (Done /\ kind = "metric") =>
     /\ (out.metric = "Levenshtein") = (inp.cls # "table" \/ ({"CDR3A", "CDR3B"} \cap inp.cols) = {})
     /\ (out.standard => inp.cls = "table")
